@@ -53,6 +53,9 @@ def cases(tier, seed):
             # scale: dimensions and memories larger than the bulk of the cases
             ps["n"] = int(rng.integers(20, 41))
             spec["maxcor"] = int(rng.integers(11, 21))
+        if i % 7 == 4:
+            spec["ls"] = {"ftol_linesearch": float(gen.pick(rng, [1e-4, 1e-2, 0.1])), "gtol_linesearch": float(gen.pick(rng, [0.5, 0.99])),
+                          "xtol_linesearch": float(gen.pick(rng, [1e-8, 1e-3, 0.3])), "max_steplength": float(gen.pick(rng, [1e10, 1e10, 2.0]))}
         if i % 5 == 2:
             spec["reuse_grad_buffer"] = True  # the user's gradient fills and returns one preallocated array
         if i % 4 == 1:
@@ -334,6 +337,9 @@ def run(spec):
     P = gen.make_problem(spec["problem"])
     K = spec["K"]
     base = dict(jac="callable", maxcor=spec["maxcor"], maxls=spec["maxls"], ftol=0.0, gtol=1e-12, maxfun=100000)
+    if spec.get("ls"):
+        base.update(spec["ls"])  # non-default line-search constants / user step cap, the same in the run and in every restart
+        out.count("problems_with_non_default_line_search_constants")
     if spec.get("reuse_grad_buffer"):
         base["reuse_grad_buffer"] = True
         out.count("problems_with_reused_gradient_buffer")
